@@ -71,13 +71,30 @@ bool run_event(Problem& prob, HostStepper& step, EventWork const& w, HistoryReco
 {
     step.reseed(UniqueEventId{w.unique_id});
     unsigned s = step.state().stream_id().get();
+    static char const* const dump = std::getenv("VERIF_C07_DUMP");  // debugging aid: event id
+    auto dump_iter = [&](std::uint64_t it) {
+        if (!dump || std::atoi(dump) != w.event_id || s != 0)
+            return;
+        auto const& ir = prob.probes->logs[s].iter;
+        std::fprintf(stderr, "DUMP ev%d it%llu alloc=%u:", w.event_id, (unsigned long long)it, ir.alloc_size_end);
+        for (std::size_t i = 0; i < ir.slots.size(); ++i)
+        {
+            auto const& r = ir.slots[i];
+            if (r.status[P_PRE] != 0)
+                std::fprintf(stderr, " [%zu:t%d a%d s%zu c%d st%d/%d]", i, r.track, r.action_post, r.secs.size(),
+                             r.secs_cleared, int(r.status[P_POST]), int(r.status[P_END]));
+        }
+        std::fprintf(stderr, "\n");
+    };
     auto res = step(make_span(w.prims));
     rec.add(prob.probes->logs[s].iter);
+    dump_iter(0);
     std::uint64_t it = 1;
     while (res && it < cap)
     {
         res = step();
         rec.add(prob.probes->logs[s].iter);
+        dump_iter(it);
         ++it;
     }
     return !res;
@@ -107,6 +124,9 @@ int run_c07(verif::Args const& args, verif::Report& rep)
 
     for (std::uint64_t c = 0; c < ncases; ++c)
     {
+        if (char const* only = std::getenv("VERIF_ONLY_CASE"))
+            if (std::uint64_t(std::atoll(only)) != c)
+                continue;
         std::uint64_t cseed = verif::mix_seed(args.seed, c * 15485863 + 11);
         verif::Rng rng(cseed);
         std::string family = rng.coin(0.3) ? "branch" : "synth";
@@ -155,6 +175,7 @@ int run_c07(verif::Args const& args, verif::Report& rep)
             }
             std::map<int, std::uint64_t> serial_hash;
             std::map<int, std::size_t> serial_steps;
+            std::map<int, EventHist> serial_hist;
             bool capped = false;
             {
                 StepperInput si;
@@ -163,12 +184,22 @@ int run_c07(verif::Args const& args, verif::Report& rep)
                 si.num_track_slots = spec.num_track_slots;
                 HostStepper step(si);
                 HistoryRecorder rec(sprob->action_labels);
+                bool const fresh_each = std::getenv("VERIF_C07_SERIAL_FRESH") != nullptr;  // debugging aid
                 for (auto const& w : work)
-                    capped = capped || !run_event(*sprob, step, w, rec, 100000);
+                {
+                    if (fresh_each)
+                    {
+                        HostStepper fresh(si);
+                        capped = capped || !run_event(*sprob, fresh, w, rec, 100000);
+                    }
+                    else
+                        capped = capped || !run_event(*sprob, step, w, rec, 100000);
+                }
                 for (auto const& kv : rec.events())
                 {
                     serial_hash[kv.first] = kv.second.hash();
                     serial_steps[kv.first] = kv.second.num_steps();
+                    serial_hist[kv.first] = kv.second;
                 }
             }
             if (capped)
@@ -228,6 +259,7 @@ int run_c07(verif::Args const& args, verif::Report& rep)
                 for (auto& fd : first_done)
                     fd.store(0);
                 std::vector<std::map<int, std::uint64_t>> thash(nthreads);
+                std::vector<std::map<int, EventHist>> thist(nthreads);
                 std::vector<std::string> terror(nthreads);
                 std::vector<int> tcapped(nthreads, 0);
                 auto worker = [&](int t) {
@@ -266,7 +298,10 @@ int run_c07(verif::Args const& args, verif::Report& rep)
                         }
                         first_done[t].store(1);
                         for (auto const& kv : rec.events())
+                        {
                             thash[t][kv.first] = kv.second.hash();
+                            thist[t][kv.first] = kv.second;
+                        }
                     }
                     catch (std::exception const& e)
                     {
@@ -320,8 +355,27 @@ int run_c07(verif::Args const& args, verif::Report& rep)
                         w["event"] = kv.first;
                         w["serial_hash"] = kv.second;
                         w["concurrent_hash"] = itc == chash.end() ? 0 : itc->second;
-                        rep.violation("C07/history-mismatch/event",
-                                      "per-event step history under concurrency differs from the serial run", w);
+                        for (auto const& th : thist)
+                        {
+                            auto ith = th.find(kv.first);
+                            if (ith != th.end())
+                            {
+                                w["first_difference"] = diff_events(serial_hist[kv.first], ith->second);
+                                w["secondary_buffer_exhausted"]
+                                    = serial_hist[kv.first].had_failure || ith->second.had_failure;
+                            }
+                        }
+                        if (w.value("secondary_buffer_exhausted", false))
+                            // order dependence under secondary-buffer exhaustion (see C06's known
+                            // finding): a re-indexing order leaves a different slot permutation
+                            // behind after earlier events on the serial stream
+                            rep.violation("C07/history-mismatch/secondary-buffer-exhausted",
+                                          "the secondary buffer ran out during the event; its history depends "
+                                          "on the slot visiting order left behind by earlier events",
+                                          w);
+                        else
+                            rep.violation("C07/history-mismatch/event",
+                                          "per-event step history under concurrency differs from the serial run", w);
                         break;
                     }
                 }
